@@ -1,3 +1,18 @@
+/-
+C05 (static part) — every registered action's request template resolves through the regenerated schematic request
+tree, for every node class the action can address and every software class it can name; hence, on ANY live tree that
+contains what the schema predicts for its inventory, a request formed from parameters naming present components is
+never `unreachable`, the validators met on its way are exactly the ones the schema attaches to that route, and only
+those can refuse it.
+
+Two kinds of statements:
+* GENERAL theorems (`C05_schema_route_exists`, `C05_action_never_unreachable`, `C05_action_refused_only_by_route_rule`,
+  `C05_route_validators_in_schema`): for every schema, every inventory, every live tree that is an instance, every
+  parameter assignment — proved by induction over the template, no enumeration.
+* TABLE theorems over the regenerated Gen tables (`C05_action_templates_resolve`, `C05_route_guards`, `C05_gen_*`): the
+  quantifier "every template x every class" ranges over a FINITE regenerated table and is discharged by `decide +kernel`;
+  it is re-checked against whatever the source says on every run.
+-/
 import PrimaiteModel.Model.Schema
 import PrimaiteModel.Props.C05
 import PrimaiteModel.Gen.RequestSchema
@@ -7,6 +22,9 @@ open Primaite.Request
 open Primaite.Gen.RequestSchema (schema)
 open Primaite.Gen.ActionTemplates (templates)
 
+/-- Core lemma: on an instance of the schema, a template that walks through the schema, instantiated with parameters
+naming present components, is a path of the live tree down to a handler, and the validators met on it are (by name)
+the ones the schema lists for the concrete route. Induction over the template. -/
 theorem walk_sound (S : Schema) (vn : VId → Validator) (pick : SlotKind → List String) (ρ : String → Key) :
     ∀ (segs : List TSeg) (m : String) (inv : Inv) (kids : Kids),
       Inst S vn m inv kids → walk S pick m segs = true → present S pick m inv segs ρ = true →
@@ -75,7 +93,194 @@ theorem walk_sound (S : Schema) (vn : VId → Validator) (pick : SlotKind → Li
         simp only [instantiate] at this
         simp [hlk, hvn, this.1, this.2]
 
+/-- Schema-level view of the concrete route: its validator sequence is one of the alternatives `walkVals` enumerates
+(one per admitted class combination / literal choice). No live tree involved. -/
+theorem routeVals_mem_walkVals (S : Schema) (pick : SlotKind → List String) (ρ : String → Key) :
+    ∀ (segs : List TSeg) (m : String) (inv : Inv),
+      walk S pick m segs = true → present S pick m inv segs ρ = true →
+      routeVals S m inv segs ρ ∈ walkVals S pick m segs := by
+  intro segs
+  induction segs with
+  | nil => intro m inv hw; simp [walk] at hw
+  | cons seg rest ih =>
+    intro m inv hw hp
+    cases hm : S.mgr m with
+    | none => simp [walk, hm] at hw
+    | some M =>
+      cases M with
+      | static edges =>
+        simp only [walk, hm] at hw
+        simp only [present, hm] at hp
+        simp only [routeVals, walkVals, hm]
+        cases seg with
+        | lit k =>
+          simp only [TSeg.key] at hp ⊢
+          cases hl : lookupE k edges with
+          | none => simp [hl] at hw
+          | some vt =>
+            obtain ⟨vs, tgt⟩ := vt
+            cases tgt with
+            | leaf => simp
+            | sub m' =>
+              simp only [hl, Bool.true_and] at hw hp
+              simp only [List.mem_map]
+              exact ⟨_, ih m' inv hw hp, rfl⟩
+        | choice f ty =>
+          simp only [TSeg.key] at hp ⊢
+          simp only [Bool.and_eq_true, List.all_eq_true] at hw
+          simp only [Bool.and_eq_true, List.contains_iff_mem] at hp
+          have hk := hw.2 (ρ f) hp.1
+          simp only [List.mem_flatMap]
+          refine ⟨ρ f, hp.1, ?_⟩
+          cases hl : lookupE (ρ f) edges with
+          | none => simp [hl] at hk
+          | some vt =>
+            obtain ⟨vs, tgt⟩ := vt
+            cases tgt with
+            | leaf => simp
+            | sub m' =>
+              simp only [hl] at hk hp
+              simp only [List.mem_map]
+              exact ⟨_, ih m' inv hk hp.2, rfl⟩
+        | slot f sk ty => simp at hw
+        | opt d => simp at hw
+      | dynamic lv ty vs =>
+        simp only [walk, hm, Bool.and_eq_true, List.all_eq_true] at hw
+        simp only [present, hm] at hp
+        simp only [routeVals, walkVals, hm]
+        cases hf : findChild lv (seg.key ρ) inv.children with
+        | none => simp [hf] at hp
+        | some ci =>
+          obtain ⟨c, inv'⟩ := ci
+          simp only [hf, Bool.and_eq_true, List.contains_iff_mem] at hp
+          simp only [List.mem_flatMap, List.mem_map]
+          exact ⟨c, hp.1, _, ih c inv' (hw.2 c hp.1) hp.2, rfl⟩
+
+/-! ### (b) general theorems: every schema, every inventory, every instance, every parameter assignment -/
+
+/-- On every live tree that is an instance of the schema for an inventory, a template that resolves (for node class
+`c`), instantiated with parameters naming components present in the inventory, is a path of the live tree that names
+existing components down to a handler. -/
+theorem C05_schema_route_exists (S : Schema) (vn : VId → Validator) (c : String) (t : Template) (inv : Inv)
+    (kids : Kids) (ρ : String → Key)
+    (hinst : Inst S vn rootMgr inv kids) (hres : resolves S c t = true)
+    (hpres : present S (pickNode S c) rootMgr inv t.segs ρ = true) :
+    pathExistsK kids (instantiate ρ t.segs) = true :=
+  (walk_sound S vn (pickNode S c) ρ t.segs rootMgr inv kids hinst hres hpres).1
+
+/-- `action_never_unreachable` (DESIGN §5/C05): ... hence dispatch of that request is never `unreachable`, whatever the
+validators say and at whatever depth it starts. -/
+theorem C05_action_never_unreachable (S : Schema) (vn : VId → Validator) (c : String) (t : Template) (inv : Inv)
+    (kids : Kids) (ρ : String → Key)
+    (hinst : Inst S vn rootMgr inv kids) (hres : resolves S c t = true)
+    (hpres : present S (pickNode S c) rootMgr inv t.segs ρ = true) (env : Env) (d d' : Nat) :
+    dispatchK env kids (instantiate ρ t.segs) d ≠ .unreachable d' :=
+  C05_existing_target_never_unreachable env kids _ d
+    (C05_schema_route_exists S vn c t inv kids ρ hinst hres hpres) d'
+
+/-- ... the validators met along it are, by name and in order, exactly the ones the schema attaches to the edges of
+the concrete route. -/
+theorem C05_route_validators_in_schema (S : Schema) (vn : VId → Validator) (c : String) (t : Template) (inv : Inv)
+    (kids : Kids) (ρ : String → Key)
+    (hinst : Inst S vn rootMgr inv kids) (hres : resolves S c t = true)
+    (hpres : present S (pickNode S c) rootMgr inv t.segs ρ = true) :
+    (validatorsOnK kids (instantiate ρ t.segs)).map (fun va => vn va.1) = routeVals S rootMgr inv t.segs ρ :=
+  (walk_sound S vn (pickNode S c) ρ t.segs rootMgr inv kids hinst hres hpres).2
+
+/-- ... and if the request is refused (`failure`), the refusing rule is the schema's validator of the route edge at
+the reported depth — no rule off the route can refuse it. -/
+theorem C05_action_refused_only_by_route_rule (S : Schema) (vn : VId → Validator) (c : String) (t : Template)
+    (inv : Inv) (kids : Kids) (ρ : String → Key)
+    (hinst : Inst S vn rootMgr inv kids) (hres : resolves S c t = true)
+    (hpres : present S (pickNode S c) rootMgr inv t.segs ρ = true) (env : Env) (d d' : Nat) (v : VId)
+    (h : dispatchK env kids (instantiate ρ t.segs) d = .failure d' v) :
+    d ≤ d' ∧ (routeVals S rootMgr inv t.segs ρ)[d' - d]? = some (vn v) := by
+  obtain ⟨hle, args, hget, _, _⟩ := C05_failure_is_own_rule env kids _ d d' v h
+  refine ⟨hle, ?_⟩
+  rw [← C05_route_validators_in_schema S vn c t inv kids ρ hinst hres hpres]
+  simp [List.getElem?_map, hget]
+
+/-! ### (a), (c): the regenerated tables. The quantifiers below range over FINITE regenerated tables (every template of
+Gen/ActionTemplates x every class Gen/RequestSchema lists as addressable / nameable); `decide +kernel` evaluates them. -/
+
+/-- (a) EVERY regenerated template resolves through the regenerated schema for EVERY node class it can address
+(node_name-like fields: every registered Node subclass; target_router: Router and its subclasses; target_firewall_nodename:
+Firewall), for every Service / Application class a service_name / application_name can denote, for the class that
+registers under a literal software name ("nmap", "terminal", ...), and for every firewall port x direction. -/
 theorem C05_action_templates_resolve :
     ∀ t ∈ templates, (addressable schema t) ≠ [] ∧ ∀ c ∈ addressable schema t, resolves schema c t = true := by
   decide +kernel
+
+/-- The permission rules on each action's route (allow-all edges dropped, combined validators flattened, in route
+order). This table is the contract C11 / C12 rely on; it is compared with the regenerated schema below. -/
+def expectedGuards (action : String) : List VAtom :=
+  let svc (s : String) : List VAtom := [.nodeIsOn, .serviceState s]
+  let app : List VAtom := [.nodeIsOn, .appState "RUNNING"]
+  let file : List VAtom := [.nodeIsOn, .folderExists, .folderNotDeleted, .folderFileExists, .fileNotDeleted]
+  let folder : List VAtom := [.nodeIsOn, .folderExists, .folderNotDeleted]
+  if action ∈ ["do-nothing", "router-acl-add-rule", "router-acl-remove-rule", "firewall-acl-add-rule",
+               "firewall-acl-remove-rule"] then []
+  else if action = "node-startup" then [.nodeIsOff]
+  else if action = "node-os-scan" then [.nodeIsOn, .nodeIsOn]
+  else if action ∈ ["node-service-scan", "node-service-stop", "node-service-pause", "node-service-restart",
+                    "node-service-fix"] then svc "RUNNING"
+  else if action = "node-service-start" then svc "STOPPED"
+  else if action = "node-service-resume" then svc "PAUSED"
+  else if action = "node-service-enable" then svc "DISABLED"
+  else if action ∈ ["node-application-scan", "node-application-close", "node-application-fix"] then app
+  else if action ∈ ["node-file-scan", "node-file-restore", "node-file-corrupt", "node-file-checkhash",
+                    "node-file-repair"] then file
+  else if action = "node-file-delete" then [.nodeIsOn, .fsFileExists]
+  else if action ∈ ["node-folder-scan", "node-folder-checkhash", "node-folder-repair", "node-folder-restore"] then folder
+  else if action ∈ ["host-nic-enable", "network-port-enable"] then [.nodeIsOn, .nicDisabled]
+  else if action ∈ ["host-nic-disable", "network-port-disable"] then [.nodeIsOn, .nicEnabled]
+  else [.nodeIsOn]
+
+/-- (c, table) For every regenerated template, every addressable node class and EVERY combination of software classes /
+firewall ports the walk admits, the non-trivial validators on the route are exactly `expectedGuards` (so they do not
+depend on which subclass is addressed); the do-nothing fall-backs meet none. -/
+theorem C05_route_guards :
+    ∀ t ∈ templates, ∀ c ∈ addressable schema t, ∀ g ∈ guardsOf schema c t,
+      g = (if t.fallback then [] else expectedGuards t.action) := by
+  decide +kernel
+
+/-- (c) `only_own_validators`: on every live tree that is an instance of the REGENERATED schema, for every regenerated
+template, every addressable node class and every parameter assignment naming present components, the permission rules
+met on the request's way are exactly the expected guards of that action — e.g. `node-service-stop` is guarded by
+node-is-on and service-is-RUNNING and by nothing else. -/
+theorem C05_only_own_validators (vn : VId → Validator) (inv : Inv) (kids : Kids)
+    (hinst : Inst schema vn rootMgr inv kids) (t : Template) (ht : t ∈ templates) (c : String)
+    (hc : c ∈ addressable schema t) (ρ : String → Key)
+    (hpres : present schema (pickNode schema c) rootMgr inv t.segs ρ = true) :
+    ((validatorsOnK kids (instantiate ρ t.segs)).map (fun va => vn va.1)).flatten =
+      (if t.fallback then [] else expectedGuards t.action) := by
+  have hres := (C05_action_templates_resolve t ht).2 c hc
+  rw [C05_route_validators_in_schema schema vn c t inv kids ρ hinst hres hpres]
+  apply C05_route_guards t ht c hc
+  simp only [guardsOf, List.mem_map]
+  exact ⟨_, routeVals_mem_walkVals schema (pickNode schema c) ρ t.segs rootMgr inv hres hpres, rfl⟩
+
+/-- ... and a refusal (`failure`) of such a request names a rule all of whose atoms are among the action's expected
+guards. -/
+theorem C05_refusal_is_expected_guard (vn : VId → Validator) (inv : Inv) (kids : Kids)
+    (hinst : Inst schema vn rootMgr inv kids) (t : Template) (ht : t ∈ templates) (c : String)
+    (hc : c ∈ addressable schema t) (ρ : String → Key)
+    (hpres : present schema (pickNode schema c) rootMgr inv t.segs ρ = true) (env : Env) (d d' : Nat) (v : VId)
+    (h : dispatchK env kids (instantiate ρ t.segs) d = .failure d' v) :
+    ∀ a ∈ vn v, a ∈ (if t.fallback then [] else expectedGuards t.action) := by
+  intro a ha
+  have hres := (C05_action_templates_resolve t ht).2 c hc
+  obtain ⟨_, hget⟩ := C05_action_refused_only_by_route_rule schema vn c t inv kids ρ hinst hres hpres env d d' v h
+  rw [← C05_only_own_validators vn inv kids hinst t ht c hc ρ hpres,
+      C05_route_validators_in_schema schema vn c t inv kids ρ hinst hres hpres]
+  exact List.mem_flatten.mpr ⟨vn v, List.mem_of_getElem? hget, ha⟩
+
+/-- The whole of `action_never_unreachable` for the regenerated tables in one statement. -/
+theorem C05_regenerated_action_never_unreachable (vn : VId → Validator) (inv : Inv) (kids : Kids)
+    (hinst : Inst schema vn rootMgr inv kids) (t : Template) (ht : t ∈ templates) (c : String)
+    (hc : c ∈ addressable schema t) (ρ : String → Key)
+    (hpres : present schema (pickNode schema c) rootMgr inv t.segs ρ = true) (env : Env) (d d' : Nat) :
+    dispatchK env kids (instantiate ρ t.segs) d ≠ .unreachable d' :=
+  C05_action_never_unreachable schema vn c t inv kids ρ hinst ((C05_action_templates_resolve t ht).2 c hc) hpres env d d'
+
 end Primaite.Schema
